@@ -84,6 +84,7 @@ func traceAPIHistories(r *evid.Run, nHist, maxCalls int) {
 		names := [][]string{{"k1"}, {"k2"}, {"k3", "SP", "k4"}, {"k5"}, {"k6"}, {"k7"}, {"k8"}, {"k1", "DOT", "k2"}, {"k2", "k3"}, {"k4", "HY", "k5"}, {"k6", "k6"}, {"k7", "SP"}}
 		ncalls := 8 + rng.Intn(maxCalls)
 		wide := 0
+		var held []func(func(*gtree.WalkerNode, error) bool) // iterators made earlier in this history
 		for i := 0; i < ncalls; i++ {
 			x := rng.Intn(10)
 			switch {
@@ -132,6 +133,33 @@ func traceAPIHistories(r *evid.Run, nHist, maxCalls int) {
 				g.K, g.ID = "node", id
 				evs = append(evs, &apiEv{Op: "Add", Name: nm, P: p, Got: g})
 				descs = append(descs, fmt.Sprintf("#%d.Add(%q) -> #%d", p, s, id))
+			case x == 7 && rng.Intn(2) == 0:
+				// it := WalkIterFromRoot(root): kept, ranged over later (and more than once)
+				var roots []int
+				for k := 1; k < len(nodes); k++ {
+					if hier[k] == 1 {
+						roots = append(roots, k)
+					}
+				}
+				p := roots[rng.Intn(len(roots))]
+				held = append(held, gtree.WalkIterFromRoot(nodes[p], branchOpts(c)...))
+				evs = append(evs, &apiEv{Op: "Open", Name: []string{}, P: p, Got: noneGot()})
+				descs = append(descs, fmt.Sprintf("it%d := WalkIterFromRoot(#%d)", len(held), p))
+			case x == 8 && len(held) > 0:
+				k := rng.Intn(len(held))
+				g := noneGot()
+				recs, o := real.RangeWalk(held[k])
+				g.K = o.Class()
+				if o.Class() == "ok" {
+					g.K = "walk"
+					for _, w := range recs {
+						g.Walk = append(g.Walk, walkToJ(w, c))
+					}
+				} else if o.Err != nil {
+					g.K, g.Err = "err", "other:"+o.Err.Error()
+				}
+				evs = append(evs, &apiEv{Op: "Range", Name: []string{}, P: k + 1, Got: g})
+				descs = append(descs, fmt.Sprintf("range it%d -> %s %d records %v", k+1, g.K, len(recs), o.Err))
 			default:
 				p := rng.Intn(len(nodes)) // 0 = nil
 				kind := []string{"text", "tree", "walk", "mkdir"}[rng.Intn(4)]
